@@ -503,7 +503,7 @@ edit_script(const struct tp_schema *s, struct lyd_node **tree, int steps)
                 if (getenv("VERIF_TRACE")) fprintf(stderr, "[edit] change %s '%s' -> '%s'\n", e->schema->name, lyd_get_value(e), v);
                 if ((e->schema->nodetype == LYS_LEAFLIST) && (e->schema->flags & LYS_ORDBY_SYSTEM) && lyd_parent(e) &&
                         ((e->next && (e->next->schema == e->schema)) || (e->prev->next && (e->prev->schema == e->schema)))) {
-                    /* value change of one of several instances of a system-ordered leaf-list below a parent (finding F73) */
+                    /* value change of one of several instances of a system-ordered leaf-list below a parent (finding F19) */
                     mark("chg-sorted-ll");
                 }
                 lyd_change_term(e, v);
